@@ -16,15 +16,35 @@ PROOF_MODULES = ["PyribsProofs.C14"]
 THEOREMS = [
     "Pyribs.C14.sqrtLo_le",
     "Pyribs.C14.le_sqrtHi",
+    "Pyribs.C14.sqrt_bracket_real",
+    "Pyribs.C14.bracket_sound",
+    "Pyribs.C14.novelDec_empty",
+    "Pyribs.C14.novelDec_sound",
     "Pyribs.C14.novelDec_sound_k1",
-    "Pyribs.C14.assign_indices",
+    "Pyribs.C14.admission_sound",
+    "Pyribs.C14.sortNb_perm",
+    "Pyribs.C14.sortNb_sorted",
+    "Pyribs.C14.kNearest_spec",
+    "Pyribs.C14.nearestSet_spec",
+    "Pyribs.C14.assign_flags_length",
+    "Pyribs.C14.assign_respects_decision",
     "Pyribs.C14.assign_novel_fresh",
+    "Pyribs.C14.inv_new",
+    "Pyribs.C14.inv_add",
+    "Pyribs.C14.inv_clear",
+    "Pyribs.C14.inv_history",
+    "Pyribs.C14.novel_fresh",
     "Pyribs.C14.append_only",
     "Pyribs.C14.append_only_history",
     "Pyribs.C14.replace_iff",
+    "Pyribs.C14.competitors_nearest",
     "Pyribs.C14.growCap_spec",
     "Pyribs.C14.capacity_ge_len",
+    "Pyribs.C14.capacity_add",
+    "Pyribs.C14.capacity_mono_step",
     "Pyribs.C14.bounds_none_iff",
+    "Pyribs.C14.bounds_after_clear",
+    "Pyribs.C14.bounds_spec",
     "Pyribs.C14.nonvacuous",
 ]
 RULE = ("lock-step histories of add / add_single / clear on ProximityArchive with k_neighbors in {1,2,3,5}, "
